@@ -228,6 +228,11 @@ def _worker(args):
                 f, cls = job
             fxml = R.to_xml(f)
             want_data = stats["queries"] % 7 == 0
+            index_on = cfg.threshold is not None and cfg.threshold < 1000
+            if index_on:
+                # index pass: the first answer comes from the naive path (and extends the index), the second from the index
+                s.req("REPORT", s.url("cal"), dict(dav.XML_CT, Depth="1"), query_body(fxml, tzid, data=False))
+                cls = cls + ":via-index"
             r = s.req("REPORT", s.url("cal"), dict(dav.XML_CT, Depth="1"), query_body(fxml, tzid, data=want_data))
             stats["queries"] += 1
             expected = {}
@@ -266,6 +271,7 @@ def _worker(args):
                 if mode == "time":
                     comp, start, end = job
                     ocomp = objects_comp[name]
+                    via = ":via-index" if index_on else ""
                     if ocomp != comp:
                         what = "time-range:%s:object-of-other-type-%s:%s" % (comp, ocomp, direction)
                         detail = {}
@@ -277,12 +283,12 @@ def _worker(args):
                         bs = bounds_of(body, comp, default_tz)
                         kind = name.rsplit("-", 1)[-1].replace(".ics", "")
                         kind = kind if kind in ("utc", "floating", "tzid", "date") else "utc"
-                        what = "time-range:row-%s:%s:%s:%s:%s" % (row, kind, position(start, bs, "start"), position(end, bs, "end"), direction)
+                        what = "time-range%s:row-%s:%s:%s:%s:%s" % (via, row, kind, position(start, bs, "start"), position(end, bs, "end"), direction)
                         detail = {"row": row, "bounds": [R.fmt_utc(b) for b in bs]}
                     vio(what, "object %s: %s (RFC 4791 9.9 %s)" % (name, direction, detail.get("row", "")), dict(detail, filter=fxml, object=name, body=body))
                 else:
                     what = "structure:%s:%s:%s" % (cls, name.replace(".ics", ""), direction)
-                    parts = cls.split(":")
+                    parts = [x for x in cls.split(":") if x != "via-index"]
                     if parts[0] in ("text-match", "param-text-match") and parts[1] in ("prefix", "suffix", "infix"):
                         # the disagreement an equality test (instead of RFC 4791 9.7.5 substring) produces, and only that
                         negated = parts[-1] == "negated"
@@ -359,6 +365,31 @@ def run(tier, workers=None):
         chunk = sfilters[i::min(nw, 8)]
         if chunk:
             jobs_all.append((cfg, "structure", sobjs, chunk, None))
+    # index pass: the same semantics must come out of the index-based evaluation (--index-threshold 0, each query issued twice).
+    # Objects the index is known not to handle (C10 findings: several components of one type, FREEBUSY periods) are left out.
+    icfg = Config(front="wsgi", backend="tree", prefix="/", names=names, features=set(), threshold=0)
+    # param-filters are left out of the index pass: their index keys make the index path fail (C10 known finding)
+    ifilters = [x for x in sfilters if not x[1].startswith("param-")]
+    for i in range(min(nw, 8)):
+        chunk = ifilters[i::min(nw, 8)]
+        if chunk:
+            jobs_all.append((icfg, "structure", sobjs, chunk, None))
+    itime = {n: b for n, (b, c) in tobjs.items() if c != "VFREEBUSY"}
+    tz0 = UTC
+    ibounds = sorted({x for n, (b, c) in tobjs.items() if c != "VFREEBUSY" for x in bounds_of(b, c, tz0)})
+    iranges = []
+    for a in [None] + ibounds:
+        for b in ibounds + [None]:
+            if (a is None and b is None) or (a is not None and b is not None and not a < b):
+                continue
+            iranges.append((a, b))
+    ijobs = [(comp, a, b) for comp in ("VEVENT", "VTODO", "VJOURNAL") for (a, b) in iranges]
+    if tier == "quick":
+        ijobs = ijobs[::3]
+    for i in range(min(nw, 8)):
+        chunk = ijobs[i::min(nw, 8)]
+        if chunk:
+            jobs_all.append((icfg, "time", itime, chunk, None))
     ctx = mp.get_context("fork")
     with ctx.Pool(nw) as pool:
         results = pool.map(_worker, jobs_all, chunksize=1)
